@@ -380,6 +380,9 @@ def do_radial(R, rng, thorough):
                 R.ctx.count("bp_nonfinite_skipped"); continue
             R.pair(name, "f64", args, scale=bp_scale(c0), rtol=1e-8)
             R.pair(name, "q-int64", args[:-1] + (np.asarray(args[-1]).astype(np.int64),), scale=bp_scale(c0), rtol=1e-8)
+            # a caller-supplied first guess (the converged potential, slightly disturbed) and a pre-computed finite-difference system
+            fg = np.asarray(c0[0], float) * (1 + 1e-3 * np.cos(np.arange(g.size))) ; fg[-1] = 0.0
+            R.pair(name, "first-guess+ldu", args + (fg, ldu), scale=bp_scale(c0), rtol=1e-8)
             # species arrays as non-contiguous views: a column block of a C-ordered matrix, a strided column
             def colblock(v):
                 M = np.zeros((v.shape[0], 3)); M[:, 1:2] = v; return M[:, 1:2]
@@ -420,7 +423,7 @@ def do_advanced(R, rng, thorough):
         if k < 4:
             opts, okw = gens.make_options(bits=pats[k])
             fixed = {"RADIAL_DYNAMICS": okw["RADIAL_DYNAMICS"]}
-            m, desc = advcorr.build_model(rng, n_grid=60, zmax=10, k=int(rng.integers(1, 3)), opts=opts)
+            m, desc = advcorr.build_model(rng, n_grid=60, zmax=10, k=int(rng.integers(1, 3)), opts=opts, gases=(2 if k == 0 else None))
         else:
             fixed = {"RADIAL_DYNAMICS": bool(k % 2)}
             m, desc = advcorr.build_model(rng, n_grid=60, zmax=12, k=int(rng.integers(1, 3)), **fixed)
@@ -470,11 +473,60 @@ def do_advanced(R, rng, thorough):
         R.pair("_chunked_adv_rhs", "strided-columns", (m, 0.0, big[:, 1:7:2]), scale=sc2, jsonargs=dict(desc, y=y), rtol=1e-9)
 
 
+class LineCoverage:
+    """which source lines of the kernels' Python definitions the harness's inputs execute (interpreted executions only; PEP 669 monitoring,
+    every location is switched off after its first hit, so the cost is negligible).  Reported in the evidence: a line no input reaches is a
+    line the differential comparison says nothing about."""
+    def __init__(self, kernels):
+        import sys
+        self.mon = getattr(sys, "monitoring", None)
+        self.codes, self.hit = {}, set()
+        for name, k in kernels.items():
+            stack = [k["py"].__code__]
+            while stack:
+                c = stack.pop()
+                self.codes[c] = name
+                stack += [x for x in c.co_consts if hasattr(x, "co_lines")]
+        self.tool = None
+        if self.mon is None: return
+        for tid in (3, 4, 2):
+            try:
+                self.mon.use_tool_id(tid, "ebisim-verif-c19"); self.tool = tid; break
+            except Exception:
+                continue
+        if self.tool is None: return
+        self.mon.register_callback(self.tool, self.mon.events.LINE, self._line)
+        for c in self.codes:
+            self.mon.set_local_events(self.tool, c, self.mon.events.LINE)
+
+    def _line(self, code, line):
+        self.hit.add((code, line))
+        return self.mon.DISABLE
+
+    def report(self):
+        out = {}
+        if self.tool is None: return out
+        per = {}
+        for c, name in self.codes.items():
+            lines = {l for (_, _, l) in c.co_lines() if l is not None and l != c.co_firstlineno}
+            got = {l for (cc, l) in self.hit if cc is c}
+            t = per.setdefault(name, [set(), set()]); t[0] |= lines; t[1] |= (got & lines)
+        for name, (lines, got) in per.items():
+            out[name] = {"executable_lines": len(lines), "executed": len(got), "not_executed": sorted(lines - got)[:40]}
+        for c in self.codes:
+            try: self.mon.set_local_events(self.tool, c, 0)
+            except Exception: pass
+        try: self.mon.free_tool_id(self.tool)
+        except Exception: pass
+        return out
+
+
 def run(ctx):
     logging.getLogger("ebisim").setLevel(logging.ERROR)
     rng = ctx.rng
     K = discover()
     R = Runner(ctx, K)
+    cover = LineCoverage(K)
     ctx.violations = R.V
     ctx.stats["programs"] = len(K)
     ctx.stats["disagreements_checked"] = 0
@@ -487,6 +539,9 @@ def run(ctx):
     do_xs(R, rng, ctx.thorough)
     do_radial(R, rng, ctx.thorough)
     do_advanced(R, rng, ctx.thorough)
+    lc = cover.report()
+    ctx.cov["py_line_coverage"] = lc
+    ctx.cov["py_line_coverage_total"] = {"executable_lines": sum(v["executable_lines"] for v in lc.values()), "executed": sum(v["executed"] for v in lc.values())}
     ctx.cov["kernels"] = {n: sorted(v) for n, v in R.done.items()}
     un = sorted(set(K) - set(R.done))
     ctx.cov["unexercised_kernels"] = un
